@@ -431,9 +431,10 @@ Section POST.
     fix_run from step d (Z.quot (to - from) step + 1) None (List.concat batches).
 End POST.
 Arguments pentry : clear implicits.
-(* the window handed to the SQL planners *)
-Definition fix_from (from d : Z) : Z := go_truncate from d.
-Definition fix_to (to d : Z) : Z := go_truncate to d + d.
+(* the window handed to the SQL planners: whole range windows counted from the Unix epoch (Go division on non-negative
+   nanoseconds). go_truncate above is what Time.Truncate computed before the fix. *)
+Definition fix_from (from d : Z) : Z := Z.quot from d * d.
+Definition fix_to (to d : Z) : Z := Z.quot to d * d + d.
 
 (* ================= specification oracle on the implementation's observations ================= *)
 (* The check extracts, from the SQL text the REAL planners produced, the aggregate fragment and the window
@@ -521,6 +522,7 @@ Definition agg_obs_bad (os : list agg_obs) : list (Z * Z) :=
 (* post-processor cases: the real FixPeriodPlanner / ZeroEaterPlanner on scripted batches; values are quarters, kept as
    their integer numerators (the post-processors only test values for zero and copy them) *)
 Record pcase := { pc_id : Z; pc_zero : bool (* ZeroEater, else FixPeriod *); pc_from : Z; pc_to : Z; pc_step : Z; pc_dur : Z;
+                  pc_sqlfrom : Z; pc_sqlto : Z;     (* ctx.From / ctx.To as the upstream (the SQL planners) saw them *)
                   pc_in : list (list (Z * N * Z)); pc_out : list (list (Z * N * Z)) }.
 Definition zentry := pentry Z.
 Definition pe_of (x : Z * N * Z) : zentry := {| pe_ts := fst (fst x); pe_fp := snd (fst x); pe_val := snd x |}.
@@ -530,7 +532,9 @@ Fixpoint list_eqb {A} (eqb : A -> A -> bool) (a b : list A) : bool :=
 Definition pcase_mismatch (c : pcase) : bool :=
   let inp := map (map pe_of) (pc_in c) in
   let model := if pc_zero c then zero_eater (Z.eqb 0) inp else fix_period (Z.eqb 0) 0 (pc_from c) (pc_to c) (pc_step c) (pc_dur c) inp in
-  negb (list_eqb (list_eqb pe_eqb) model (map (map pe_of) (pc_out c))).
+  negb (list_eqb (list_eqb pe_eqb) model (map (map pe_of) (pc_out c))
+        && (if pc_zero c then Z.eqb (pc_sqlfrom c) (pc_from c) && Z.eqb (pc_sqlto c) (pc_to c)
+            else Z.eqb (pc_sqlfrom c) (fix_from (pc_from c) (pc_dur c)) && Z.eqb (pc_sqlto c) (fix_to (pc_to c) (pc_dur c)))).
 Definition post_mismatches (cs : list pcase) : list Z := map pc_id (filter pcase_mismatch cs).
 (* what any step-fixed matrix must look like, judged on the OBSERVED output of FixPeriodPlanner: points lie on the
    grid from + i*step inside the array, ascend within a batch, carry no zero, one batch per run of a fingerprint,
@@ -554,5 +558,12 @@ Definition fix_out_ok (c : pcase) : bool :=
 Definition zero_out_ok (c : pcase) : bool :=
   list_eqb pe_eqb (List.concat (map (map pe_of) (pc_out c)))
                   (filter (fun e => negb (Z.eqb (pe_val e) 0)) (List.concat (map (map pe_of) (pc_in c)))).
+(* the window the SQL is asked for must consist of whole range windows as the SQL buckets them (multiples of the range)
+   and cover [from, to]: otherwise the first / last reported window is computed from a part of its lines *)
+Definition fix_window_ok (c : pcase) : bool :=
+  let d := pc_dur c in
+  Z.eqb (Z.rem (pc_sqlfrom c) d) 0 && Z.eqb (Z.rem (pc_sqlto c) d) 0
+  && Z.leb (pc_sqlfrom c) (pc_from c) && Z.ltb (pc_from c) (pc_sqlfrom c + d)
+  && Z.ltb (pc_to c) (pc_sqlto c) && Z.leb (pc_sqlto c) (pc_to c + d).
 Definition post_spec_violations (cs : list pcase) : list Z :=
-  map pc_id (filter (fun c => negb (if pc_zero c then zero_out_ok c else fix_out_ok c)) cs).
+  map pc_id (filter (fun c => negb (if pc_zero c then zero_out_ok c else fix_out_ok c && fix_window_ok c)) cs).
